@@ -190,6 +190,48 @@ def _string_worker(task):
     return out
 
 
+def seq_items():
+    it = [lit(v, r) for v in (0, 1, 8, -7, 255) for r in ("dec", "hex", "oct", "bin")]
+    return it + ["true", '"s"', "[]", "[010]", "DW_TAG_array_type", "T_STR"]
+
+
+def seq_cases(tier):
+    it = seq_items()
+    for a, b in itertools.product(it, repeat=2):
+        yield (a, b)
+    small = it[4:12] + it[20:23]
+    for t in itertools.product(small if tier != "thorough" else it, repeat=3):
+        yield t
+
+
+def _seq_worker(d, chunk, extra):
+    """Values inside a sequence keep their own notation: `[a, b, ..] "%s"` reads back as the same sequence (one stream
+    renders all elements, so formatting state must not leak from one element to the next)."""
+    out = {"n": 0, "bad": []}
+    cmds = []
+    for t in chunk:
+        q = "[" + ", ".join(t) + "]"
+        cmds += [drv.run_cmd(q, lim=3), drv.run_cmd(q + ' "%s"', lim=3)]
+    rs = d.batch(cmds)
+    follow = []
+    for i, t in enumerate(chunk):
+        a, b = rs[2 * i], rs[2 * i + 1]
+        q = "[" + ", ".join(t) + "]"
+        if any(x.startswith('"') for x in t):
+            continue        # quoting of strings is promised for the CLI's nested rendering only (cli_seq_check)
+        if a.crash or b.crash or len(a.results()) != 1 or len(b.results()) != 1:
+            out["bad"].append(("seq:%s|eval" % q, "`%s` or its rendering does not evaluate: %r %r" % (q, a.lines[:1], b.lines[:1]), {"part": "seq", "t": list(t)}))
+            continue
+        follow.append((t, q, a.results()[0], drv.unhx(b.results()[0].split(":")[1].split("@")[0]).decode("latin-1")))
+    rs2 = d.batch([drv.run_cmd(txt, lim=3) for (_, _, _, txt) in follow])
+    for (t, q, canon, txt), rb in zip(follow, rs2):
+        out["n"] += 1
+        if rb.crash or rb.results() != [canon]:
+            out["bad"].append(("seq:%s" % q, "`%s` rendered by %%s is `%s`, which reads back as %r, expected %s" % (q, txt, rb.results() or rb.lines[:1], canon), {"part": "seq", "t": list(t)}))
+    out["bad"] = out["bad"][:10]
+    return out
+
+
 def cli_int_check(cli, d, tier):
     """Full rendering of integers by the CLI reads back."""
     vals = [(v, r) for v, r in int_cases(tier)]
@@ -221,6 +263,8 @@ def replay(case):
             return bool(_const_worker(d, [case["w"]], None)["bad"])
         if case["part"] == "int":
             return bool(_int_worker(d, [(case["v"], case["r"])], None)["bad"])
+        if case["part"] == "seq":
+            return bool(_seq_worker(d, [tuple(case["t"])], None)["bad"])
         return bool(cli_int_check(bins["dwgrep"], d, "quick")[1])
     finally:
         d.close()
@@ -240,6 +284,10 @@ def main(ctx):
             ctx.violation(key, what, case)
     for r in common.pmap(ctx, _int_worker, common.chunks(int_cases(ctx.tier), 100), bins["zwdrv"], "core", timeout=120):
         ctx.count("integer_renderings", r["n"])
+        for key, what, case in r["bad"]:
+            ctx.violation(key, what, case)
+    for r in common.pmap(ctx, _seq_worker, common.chunks(seq_cases(ctx.tier), 100), bins["zwdrv"], "full", timeout=120):
+        ctx.count("sequence_renderings", r["n"])
         for key, what, case in r["bad"]:
             ctx.violation(key, what, case)
     d = drv.Drv(bins["zwdrv"], "core")
